@@ -259,6 +259,23 @@ func FamilyShape(thorough bool, seed int64) []*Conv {
 		cv.Bounds = &Bounds{MaxSlice: 1, MaxMap: 1, RecDepth: 1}
 		out = append(out, cv)
 	}
+	// two instantiations of one generic type inside one type (map key and value, pair of fields)
+	for _, gi := range []struct{ name, src, tgt string }{
+		{"generic_two_instances_map", "map[PFXOpt[int]]PFXOpt[string]", "map[PFXOptT[int]]PFXOptT[string]"},
+		{"generic_two_instances_map_same_target", "map[PFXOpt[int]]PFXOpt[string]", "map[PFXOpt[int]]PFXOpt[string]"},
+		{"generic_two_instances_fields", "struct{ A PFXOpt[int]; B PFXOpt[string]; C []PFXOpt[bool] }", "struct{ A PFXOptT[int]; B PFXOptT[string]; C []PFXOptT[bool] }"},
+		{"generic_two_instances_nested_map", "map[string]map[PFXOpt[int8]][]PFXOpt[int16]", "map[string]map[PFXOptT[int8]][]PFXOptT[int16]"},
+	} {
+		cv := shapeConv("shape", shape{Src: gi.src, Tgt: gi.tgt, Name: gi.name, Decls: []string{"type PFXOpt[T comparable] struct {\n\tV T\n\tOK bool\n}\ntype PFXOptT[T comparable] struct {\n\tV T\n\tOK bool\n}"}}, nextFormat(), nil, nil)
+		cv.Bounds = &Bounds{MaxSlice: 1, MaxMap: 1, RecDepth: 1}
+		out = append(out, cv)
+	}
+	// embedded pointer fields: nil stays nil, the pointee is copied (the field is named after the embedded type)
+	for _, em := range []struct{ name, src, tgt string }{
+		{"embedded_pointer", "PFXEs", "PFXEt"}, {"embedded_pointer_elem", "[]PFXEs", "[]PFXEt"}, {"embedded_pointer_ptr", "*PFXEs", "*PFXEt"}, {"embedded_pointer_unnamed", "struct{ *PFXBase; N int }", "struct{ *PFXBase; N int }"},
+	} {
+		out = append(out, shapeConv("shape", shape{Src: em.src, Tgt: em.tgt, Name: em.name, Decls: []string{"type PFXBase struct {\n\tV int\n\tL []int\n}\ntype PFXEs struct {\n\t*PFXBase\n\tN int\n}\ntype PFXEt struct {\n\t*PFXBase\n\tN int\n}"}}, nextFormat(), nil, nil))
+	}
 	// more nested loops in one method than there are single-letter index names
 	for _, ds := range []struct {
 		name, src string
